@@ -204,9 +204,17 @@ def history(rng, kind, u, frac):
     if kind == "printed-before":
         return [["style", frac]] + show + show
     if kind == "neighbour-before":
-        c = rng.choice(["negated", "plus-one", "doubled", "first-only"])
-        v = {"negated": [(k, -e) for k, e in u], "plus-one": [(k, e + 1) for k, e in u if e + 1 != 0],
-             "doubled": [(k, 2 * e) for k, e in u], "first-only": u[:1]}[c]
+        c = rng.choice(["negated", "plus-one", "doubled", "first-only", "plus-half", "minus-half",
+                        "minus-third", "one-plus-half"])
+        shift = {"plus-half": F(1, 2), "minus-half": F(-1, 2), "minus-third": F(-1, 3)}
+        if c in shift:
+            v = [(k, e + shift[c]) for k, e in u]
+        elif c == "one-plus-half":
+            v = [(k, e + (F(1, 2) if i == 0 else 0)) for i, (k, e) in enumerate(u)]
+        else:
+            v = {"negated": [(k, -e) for k, e in u], "plus-one": [(k, e + 1) for k, e in u],
+                 "doubled": [(k, 2 * e) for k, e in u], "first-only": u[:1]}[c]
+        v = [(k, e) for k, e in v if e != 0]
         if not v or any(e.denominator > 10 for _, e in v):
             return None
         return [["style", frac], ["print", X.units_json(v), how]] + show + [
@@ -303,8 +311,11 @@ def observe(q, u, frac, route, arrays, faults=True, pre=()):
             fault("a.unit = 5", lambda: setattr(x, "unit", 5))
             out["s_after_faults"] = x.unit
         try:
-            b = q.Measurement(1.0, 0.1)
+            b = q.Measurement(1.0, 0.1, unit="Q^2/x")
+            shown_before = (str(b), b.unit)          # b is shown, THEN it gets the new unit
             b.unit = s
+            out["shown"]["str(b) after b.unit = a.unit"] = str(b).endswith(" [{}]".format(s)) \
+                if s else True
             if faults:
                 fault("b.unit = 'm2'", lambda: setattr(b, "unit", "m2"))
                 fault("b.unit = a.unit + '^'", lambda: setattr(b, "unit", s + "^"))
